@@ -10,12 +10,13 @@
    for the spline in the binary64 instance.
 
    The generic theorems are parametric in the number type V, its comparisons and a carrier `good : V -> bool`
-   on which `<=` is a total preorder whose equivalence is `==` (order_ok_on); all abscissae (and, where the
-   dict lookup of the query matters, the query value) lie in the carrier.  Instances: Z and Q with carrier =
+   on which `<=` is a total preorder whose equivalence is `==` and which is closed under `==` (order_ok_on); all
+   abscissae lie in the carrier; the query value needs no hypothesis (whatever == an abscissa is in the carrier).  Instances: Z and Q with carrier =
    everything (C20_order_laws_Z, C20_order_laws_Q) and binary64 with carrier = the non-NaN floats
    (C20_order_laws_f64, proved from Coq.Floats.FloatAxioms); the `_f64` theorems are the statements for the
    binary64 model that the correspondence check runs against the code (PrimFloat.leb / PrimFloat.eqb), with no
-   hypothesis on the comparisons beyond `no NaN among the abscissae and the query value`. *)
+   hypothesis on the comparisons beyond `no NaN among the abscissae` (a NaN query value is covered: it equals no
+   abscissa, so the query is off-node in every order). *)
 From Coq Require Import List String Bool ZArith QArith Permutation Floats.PrimFloat.
 From PAFCommon Require Import PyFloat.
 From PAFC20 Require Import Gen Model Proofs1 Proofs2 Proofs3 Proofs4 Proofs5 Witness.
@@ -29,7 +30,7 @@ Theorem C20_known_point :
   order_ok_on good leb eqb ->
   forall (assign : bool) (insts : list (tree V)) (q : list string) (qv : tree V) (v : V) (ks : list V)
          (i : nat) (inst : tree V) (k : V),
-  num_of ofZ qv = Some v -> keys_of ofZ q insts = Some ks -> allgood good ks -> good v = true -> distinct eqb ks ->
+  num_of ofZ qv = Some v -> keys_of ofZ q insts = Some ks -> allgood good ks -> distinct eqb ks ->
   nth_error insts i = Some inst -> abscissa ofZ q inst = Some k -> eqb k v = true ->
   interp_at leb eqb ofZ interp mk assign insts q qv = OSame i.
 Proof. exact @known_point. Qed.
@@ -114,8 +115,7 @@ Theorem C20_order_free :
          (good : V -> bool),
   order_ok_on good leb eqb ->
   forall (assign : bool) (insts insts' : list (tree V)) (q : list string) (qv : tree V) (ks : list V) (F : list path),
-  Permutation insts insts' -> keys_of ofZ q insts = Some ks -> allgood good ks ->
-  (forall v, num_of ofZ qv = Some v -> good v = true) -> distinct eqb ks -> same_shape F insts ->
+  Permutation insts insts' -> keys_of ofZ q insts = Some ks -> allgood good ks -> distinct eqb ks -> same_shape F insts ->
   match interp_at leb eqb ofZ interp mk assign insts q qv, interp_at leb eqb ofZ interp mk assign insts' q qv with
   | OSame i, OSame j => nth_error insts' j = nth_error insts i /\ nth_error insts i <> None
   | ONew r, ONew r' => forall p, In p F -> get p r' = get p r
@@ -227,8 +227,7 @@ Proof. exact (ex_intro _ left_value_F known_point_identity_nan_refuted). Qed.
 Theorem C20_order_free_f64 :
   forall (ofZ : Z -> float) (interp : list float -> list float -> float -> option float) (mk : float -> tree float)
          (assign : bool) (insts insts' : list (tree float)) (q : list string) (qv : tree float) (ks : list float) (F : list path),
-  Permutation insts insts' -> keys_of ofZ q insts = Some ks -> no_nan ks ->
-  (forall v, num_of ofZ qv = Some v -> PrimFloat.is_nan v = false) -> distinct PrimFloat.eqb ks -> same_shape F insts ->
+  Permutation insts insts' -> keys_of ofZ q insts = Some ks -> no_nan ks -> distinct PrimFloat.eqb ks -> same_shape F insts ->
   match interp_at PrimFloat.leb PrimFloat.eqb ofZ interp mk assign insts q qv,
         interp_at PrimFloat.leb PrimFloat.eqb ofZ interp mk assign insts' q qv with
   | OSame i, OSame j => nth_error insts' j = nth_error insts i /\ nth_error insts i <> None
